@@ -286,7 +286,7 @@ func runStoreHistory(r *rand.Rand, o storeHistOpts, t *Trace) *Case {
 				code = 1
 			}
 			ops = append(ops, func(c *Case) {
-				c.N(9).B(false).N(len(lst))
+				c.N(9).N(0).N(len(lst))
 				for _, l := range lst {
 					c.N(l[0]).N(l[1]).N(l[2]).N(l[3]).N(l[4])
 				}
